@@ -29,7 +29,9 @@ theorem migRateStep_rescale {a b : ℚ} (ha : 0 < a) (r : ℚ) (m : GMig) (s d :
     migRateStep (r / b) (m.rescale a b) s d (tscale a i0) (tscale a i1) = migRateStep r m s d i0 i1 / b := by
   have h1 : ∀ x : ℚ, tle (some (a * x)) (tscale a i1) = tle (some x) i1 := fun x => tle_tscale ha (some x) i1
   unfold migRateStep
-  cases hs : m.sym <;> simp only [GMig.rescale, hs, tge_tscale ha, h1] <;> split_ifs <;> rfl
+  have h2 : ∀ x : ℚ, tge (some (a * x)) (tscale a i0) = tge (some x) i0 := fun x => tge_tscale ha (some x) i0
+  have h3 : ∀ x : ℚ, teq (some (a * x)) (tscale a i1) = teq (some x) i1 := fun x => teq_tscale (ne_of_gt ha) (some x) i1
+  cases hs : m.sym <;> simp only [GMig.rescale, hs, tge_tscale ha, tle_tscale ha, teq_tscale (ne_of_gt ha), h1, h2, h3] <;> split_ifs <;> rfl
 
 theorem migRate_rescale {a b : ℚ} (ha : 0 < a) (migs : List GMig) (s d : DName) (i0 i1 : ETime) :
     migRate (migs.map (GMig.rescale a b)) s d (tscale a i0) (tscale a i1) = migRate migs s d i0 i1 / b := by
@@ -63,7 +65,7 @@ theorem epochSearch_scale {c : ℚ} (hc : 0 < c) (eps : List Epoch) (i0 i1 : ETi
     epochSearch (eps.map (Epoch.scale c)) (tscale c i0) (tscale c i1) = (epochSearch eps i0 i1).map (Epoch.scale c) := by
   unfold epochSearch
   rw [forBreak_map]
-  simp only [Epoch.scale, tge_tscale hc, tle_tscale hc]
+  simp only [Epoch.scale, tge_tscale hc, tle_tscale hc, teq_tscale (ne_of_gt hc)]
 
 /-- value of the answer of `_sizes_at_time` -/
 def evalSizes (ex lg : ℚ → ℚ) (pw : ℚ → ℚ → ℚ) (p : SizeFn × Sym × Sym) : SizeFn × ℚ × ℚ :=
@@ -211,7 +213,7 @@ theorem liveIn_rescale {a : ℚ} (ha : 0 < a) (b : ℚ) (g : Graph InEpoch) (i0 
   simp only [Function.comp_def, endTime_rescale]
   rw [show (GDeme.rescale a b d).start = tscale a d.start from rfl]
   unfold demePresent
-  simp only [tge_tscale ha, tle_tscale ha]
+  simp only [tge_tscale ha, tle_tscale ha, teq_tscale (ne_of_gt ha)]
 
 theorem demesPresent_rescale {a : ℚ} (ha : 0 < a) (b : ℚ) (g : Graph InEpoch) :
     demesPresent (g.rescale a b)
@@ -337,7 +339,7 @@ def evsScale (a : ℚ) (evs : List (ETime × DEvt)) : List (ETime × DEvt) := ev
 theorem marginalizeCond_tscale {a : ℚ} (ha : 0 < a) (sampled : List DName) (d : DName) (e : ETime) (l : List ETime) :
     marginalizeCond sampled d (tscale a e) (l.map (tscale a)) = marginalizeCond sampled d e l := by
   unfold marginalizeCond
-  simp only [List.length_map, List.all_map, Function.comp_def, tle_tscale ha]
+  simp only [List.length_map, List.all_map, List.any_map, Function.comp_def, tle_tscale ha, tge_tscale ha, teq_tscale (ne_of_gt ha)]
 
 theorem demoEvents_rescale {a : ℚ} (ha : 0 < a) (b : ℚ) (g : Graph InEpoch) (lib : List (ℚ × DEvt)) (sampled : List DName) :
     demoEvents (g.rescale a b) (libScale a lib) sampled = evsScale a (demoEvents g lib sampled) := by
@@ -524,58 +526,5 @@ theorem foldl_last_match {α : Type} (p : α → Bool) (f : α → ℚ) (l : Lis
         have hne : (x :: xs).getLast? = some ((x :: xs).getLast (by simp)) := List.getLast?_eq_some_getLast (by simp)
         rw [List.getLast?_cons_cons, hne]
 
-/-- `_migration_rate_in_interval` on a resolved graph (asymmetric migrations only): the rate of the LAST migration source → dest whose
-    time span contains the interval, 0 if there is none -/
-theorem migRate_spec (migs : List GMig) (hasym : ∀ m ∈ migs, m.sym = none) (s d : DName) (i0 i1 : ETime) :
-    migRate migs s d i0 i1 = match (migs.filter fun m => m.source == s && m.dest == d && (tge m.st i0 && tle (some m.et) i1)).getLast? with
-      | some m => m.rate
-      | none => 0 := by
-  unfold migRate
-  have hstep : ∀ m ∈ migs, ∀ r : ℚ, migRateStep r m s d i0 i1
-      = if (m.source == s && m.dest == d && (tge m.st i0 && tle (some m.et) i1)) then m.rate else r := by
-    intro m hm r
-    unfold migRateStep
-    rw [hasym m hm]
-    simp only
-    cases h1 : (m.source == s && m.dest == d) <;> cases h2 : (tge m.st i0 && tle (some m.et) i1) <;> simp [h1, h2]
-  have hfold : ∀ (l : List GMig), (∀ m ∈ l, m ∈ migs) → ∀ init : ℚ,
-      l.foldl (fun r m => migRateStep r m s d i0 i1) init
-        = l.foldl (fun r m => if (m.source == s && m.dest == d && (tge m.st i0 && tle (some m.et) i1)) then m.rate else r) init := by
-    intro l
-    induction l with
-    | nil => intro _ init; rfl
-    | cons m ms ih =>
-      intro hsub init
-      simp only [List.foldl_cons]
-      rw [hstep m (hsub m List.mem_cons_self), ih (fun x hx => hsub x (List.mem_cons_of_mem _ hx))]
-  rw [hfold migs (fun m hm => hm), foldl_last_match]
-  simp only [migRateInit]
-  cases (migs.filter fun m => m.source == s && m.dest == d && (tge m.st i0 && tle (some m.et) i1)).getLast? <;> simp
-
-/-- the epoch `_sizes_at_time` works with: the FIRST epoch of the deme whose time span contains the interval — or, when none does, the
-    deme's last epoch (the loop variable after a `for` without `break`) -/
-theorem epochSearch_spec (eps : List Epoch) (i0 i1 : ETime) (e : Epoch) (h : epochSearch eps i0 i1 = some e) :
-    (epochCovers e.st e.et i0 i1 = true ∧ ∃ pre post, eps = pre ++ e :: post ∧ ∀ y ∈ pre, epochCovers y.st y.et i0 i1 = false)
-    ∨ ((∀ y ∈ eps, epochCovers y.st y.et i0 i1 = false) ∧ eps.getLast? = some e) := by
-  unfold epochSearch forBreak at h
-  cases hf : eps.find? (fun epoch => tge epoch.st i0 && tle epoch.et i1) with
-  | some x =>
-    rw [hf] at h
-    simp only [Option.some.injEq] at h
-    subst h
-    left
-    obtain ⟨hc, pre, post, hl, hpre⟩ := List.find?_eq_some_iff_append.1 hf
-    refine ⟨hc, pre, post, hl, ?_⟩
-    intro y hy
-    have := hpre y hy
-    unfold epochCovers
-    cases h1 : tge y.st i0 <;> cases h2 : tle y.et i1 <;> simp_all
-  | none =>
-    rw [hf] at h
-    right
-    refine ⟨?_, h⟩
-    intro y hy
-    have := List.find?_eq_none.1 hf y hy
-    simpa [epochCovers] using this
 
 end DadiVerif.DemesConv
